@@ -268,6 +268,16 @@ def slerp_threshold(ctx):
         m = re.fullmatch(r'abs\(theta\) > (\d+) \* _eps', t)
         if m:
             return int(m.group(1))
+    # restructured slerp (renamed local, test hoisted into a helper): the threshold multiset of slerp and of the same-module helpers
+    # it calls must be the recorded one (lib/tsoft.py, baseline shared with C11) -- then K is read from it
+    from lib import tsoft
+    from lib.core import REPO
+    same, found, _b = tsoft.same_thresholds(REPO, 'C11', 'spatialmath/base/quaternions.py', 'slerp', {'unit', 'r2q', 'isunitvec', 'trinterp', 'UnitQuaternion.interp', 'interp'})
+    ks = [m for m in (re.fullmatch(r'cmp Gt (\d+)\*eps', t) for t in (found or [])) if m]
+    if same and len(ks) == 1:
+        if ctx is not None:
+            ctx.notes.append("base.slerp restructured; small-angle threshold read from the threshold multiset of slerp + helpers (unchanged)")
+        return int(ks[0].group(1))
     if ctx is not None:
         ctx.fail('gen:slerp-skeleton', "base.slerp: the small-angle test is no longer `abs(theta) > K * _eps` "
                  f"(tests found: {tests}); the slerp model of Model/C11_Interp.v used by C01_interp.v does not mirror the code", no_input=True)
